@@ -159,6 +159,9 @@ def verify_function(tu, fname, externs, init=pycfunction_init, config=None,
             return rep
     for ob in extra_obs:
         seen[id(ob)] = ob
+    for ob in getattr(ex, 'orphans', []):
+        seen[id(ob)] = ob
+    rep['abandoned'] = getattr(ex, 'abandoned', [])
     sites = {}
     # dedupe instances with identical (site, pc, goal)
     uniq = {}
